@@ -1210,4 +1210,22 @@ theorem C04_kw_lexes_examples :
 theorem C04_kw_lexes_mindsdb (w : List Nat) (hw : PlainWord w) (r : Rule) (hr : kwRuleOf LexRe_mindsdb.cfg w = some r) :
     lex LexRe_mindsdb.cfg w = .ok [.tok r.name r.ignored w] := C04_kw_lexes _ classOK_mindsdb w hw r hr
 
+theorem C04_kw_lexes_sqlite (w : List Nat) (hw : PlainWord w) (r : Rule) (hr : kwRuleOf LexRe_sqlite.cfg w = some r) :
+    lex LexRe_sqlite.cfg w = .ok [.tok r.name r.ignored w] := C04_kw_lexes _ classOK_sqlite w hw r hr
+theorem C04_kw_lexes_mysql (w : List Nat) (hw : PlainWord w) (r : Rule) (hr : kwRuleOf LexRe_mysql.cfg w = some r) :
+    lex LexRe_mysql.cfg w = .ok [.tok r.name r.ignored w] := C04_kw_lexes _ classOK_mysql w hw r hr
+
+theorem C04_word_is_ID_at_sqlite (d : Nat) (hd : d ∈ stops) (pre w rest : List Nat) (hw : PlainWord w)
+    (hk : isKw LexRe_sqlite.cfg w = false) :
+    ∃ idr, idr.name = "ID" ∧ idr.ignored = false ∧
+      firstMatch LexRe_sqlite.cfg.word LexRe_sqlite.cfg.rules ⟨pre, w ++ d :: rest⟩
+        = some (idr, ⟨w.reverse ++ pre, d :: rest⟩) :=
+  C04_word_is_ID_at _ classOK_sqlite d ((List.all_eq_true.mp stopOK_live.1) d hd) pre w rest hw hk
+theorem C04_word_is_ID_at_mysql (d : Nat) (hd : d ∈ stops) (pre w rest : List Nat) (hw : PlainWord w)
+    (hk : isKw LexRe_mysql.cfg w = false) :
+    ∃ idr, idr.name = "ID" ∧ idr.ignored = false ∧
+      firstMatch LexRe_mysql.cfg.word LexRe_mysql.cfg.rules ⟨pre, w ++ d :: rest⟩
+        = some (idr, ⟨w.reverse ++ pre, d :: rest⟩) :=
+  C04_word_is_ID_at _ classOK_mysql d ((List.all_eq_true.mp stopOK_live.2.1) d hd) pre w rest hw hk
+
 end MindsVerif.Props.C04Lex
